@@ -348,6 +348,10 @@ pub struct EmittedReq {
     pub completed_seen: bool,
     /// the lookup (by number) that was running when the request was emitted
     pub epoch: u64,
+    /// with two lookups at once (profile C10shared): which of them the request belongs to, as far as the
+    /// harness can tell (emitted by the step that started lookup 1 / 2, or by a step that answered or failed
+    /// a request of that lookup); 0 = unknown
+    pub lookup: u8,
 }
 
 #[derive(Clone, PartialEq, Eq, Debug)]
@@ -418,6 +422,12 @@ pub struct Inst {
     pub query_learned: std::collections::HashSet<[u8; 32]>,
     /// profile C17race: while a PONG is processed, the application writes to the local record from a thread of its own
     pub race: bool,
+    /// profile C10shared: the lookup the step in progress belongs to; the stranger both lookups are told
+    /// of; which of the two lookups has taken an answer naming it
+    pub cur_lookup: u8,
+    pub shared: Option<[u8; 32]>,
+    pub shared_next: Option<usize>,
+    pub shared_seen: [bool; 2],
     pub query_lost: bool,
     pub query_dup: Vec<[u8; 32]>,
     /// `auto_nat_listen_duration` as the built configuration has it
@@ -542,6 +552,10 @@ impl Inst {
             query_answered: Default::default(),
             query_learned: Default::default(),
             race: false,
+            cur_lookup: 0,
+            shared: None,
+            shared_next: None,
+            shared_seen: [false; 2],
             query_lost: false,
             query_dup: Vec::new(),
             auto_nat,
@@ -683,6 +697,7 @@ impl Inst {
                             packets: Vec::new(),
                             completed_seen: false,
                             epoch: self.query_epoch,
+                            lookup: if op_is_query && is_findnode { self.cur_lookup } else { 0 },
                         });
                         out.push(Obs::Req(k));
                     }
@@ -719,6 +734,10 @@ impl Inst {
         };
         match t {
             "q" => find(&|r| r.outstanding && r.is_query),
+            "q1" => find(&|r| r.outstanding && r.is_query && r.lookup == 1),
+            "q2" => find(&|r| r.outstanding && r.is_query && r.lookup == 2),
+            // the request of the other lookup that the shared stranger was chosen for
+            "qs" => self.shared_next.filter(|k| self.reqs.get(*k - 1).map(|r| r.outstanding).unwrap_or(false)),
             "e" => find(&|r| {
                 r.outstanding && !r.is_query && !r.callback && matches!(r.body, RequestBody::FindNode { .. })
             }),
@@ -1296,6 +1315,58 @@ impl ServiceRunner {
                         }
                     }
                 }
+                "@shared" => {
+                    // one and the same stranger for whoever is answered with this token: a node at a requested
+                    // distance from this responder; kept if it also suits the next responder
+                    let base = f.get(1).and_then(|s| s.parse::<u64>().ok()).unwrap_or(0);
+                    let known = self.insts[&x].shared;
+                    let fits = |id: &[u8; 32]| {
+                        let d = dist(&resp_id, id);
+                        d != 0 && requested.contains(&d)
+                    };
+                    // (chosen so that it also suits a request of the other lookup, which is the one to be answered
+                    // next - `#qs`; log2 distances are an ultrametric, not every pair of requests has a common node)
+                    let others: Vec<(usize, [u8; 32], Vec<u64>)> = {
+                        let inst = &self.insts[&x];
+                        let me = inst.reqs[k - 1].lookup;
+                        inst.reqs
+                            .iter()
+                            .enumerate()
+                            .filter(|(_, r)| r.outstanding && r.is_query && r.lookup != 0 && r.lookup != me && me != 0)
+                            .map(|(i, r)| (i + 1, r.contact.node_id().raw(), match &r.body { RequestBody::FindNode { distances } => distances.clone(), _ => vec![] }))
+                            .collect()
+                    };
+                    let mut next: Option<usize> = None;
+                    let seed = match known.and_then(|id| self.seeds.get(&id).copied()) {
+                        Some(s) if fits(&id_of_seed(s)) => Some(s),
+                        Some(_) => None,
+                        None => {
+                            let mut found = None;
+                            for (k2, rid, ds) in others.iter() {
+                                let fits_other = |id: &[u8; 32]| {
+                                    let d = dist(rid, id);
+                                    d != 0 && ds.contains(&d)
+                                };
+                                if let Some(sd) = mine(base, |id| fits(id) && fits_other(id)) {
+                                    found = Some(sd);
+                                    next = Some(*k2);
+                                    break;
+                                }
+                            }
+                            found
+                        }
+                    };
+                    if next.is_some() {
+                        self.insts.get_mut(&x).unwrap().shared_next = next;
+                    }
+                    if let Some(sd) = seed {
+                        self.seeds.insert(id_of_seed(sd), sd);
+                        self.insts.get_mut(&x).unwrap().shared = Some(id_of_seed(sd));
+                        if let Some(e) = build_rec(sd, 1, "4", 0) {
+                            v.push(e);
+                        }
+                    }
+                }
                 "@off" => {
                     let base = f.get(1).and_then(|s| s.parse::<u64>().ok()).unwrap_or(0);
                     if let Some(s) = mine(base, |id| {
@@ -1383,7 +1454,22 @@ impl ServiceRunner {
         let was_active = self.insts[&x].reqs[k - 1].outstanding;
         let resp = Response { id, body: ResponseBody::Nodes { total, nodes: nodes.clone() } };
         let _ = self.insts[&x].hout.try_send(HandlerOut::Response(from.clone(), Box::new(resp)));
+        {
+            let inst = self.insts.get_mut(&x).unwrap();
+            inst.cur_lookup = if inst.concurrent { inst.reqs[k - 1].lookup } else { 0 };
+        }
         let so = self.observe(x, self.insts[&x].reqs[k - 1].is_query, false);
+        {
+            // (profile C10shared: the lookup this request belongs to has taken an answer naming the stranger)
+            let inst = self.insts.get_mut(&x).unwrap();
+            inst.cur_lookup = 0;
+            let l = inst.reqs[k - 1].lookup;
+            if let Some(sh) = inst.shared {
+                if (l == 1 || l == 2) && so.discovered.contains(&sh) {
+                    inst.shared_seen[l as usize - 1] = true;
+                }
+            }
+        }
         let banned = so.bans_node.iter().any(|n| n.raw() == from.node_id.raw()) || so.bans_ip.contains(&from.socket_addr.ip());
         // C10: records of this packet that the lookup certainly took up as candidates - reported as
         // discovered, admissible (table filter, contactable in this node's IP mode), not the responder's
@@ -1724,6 +1810,27 @@ impl Runner for ServiceRunner {
                     enr_update as u8,
                     an
                 ));
+                out.push("ok".into());
+            }
+            // profile C10shared, at the end: two lookups have both taken an answer naming the same stranger and
+            // have both ended (with fewer nodes than they were asked for - the whole case knows fewer than 16):
+            // each of them has sent the stranger its request
+            ["sshared", _] => {
+                let inst = &self.insts[&x];
+                let done2 = inst.query2.as_ref().map(|h| h.is_finished()).unwrap_or(true);
+                if inst.shared.is_none() { stats.bump("s.c10.shared.no-stranger"); }
+                if !inst.shared_seen[0] { stats.bump("s.c10.shared.lookup-1-did-not-take-it"); }
+                if !inst.shared_seen[1] { stats.bump("s.c10.shared.lookup-2-did-not-take-it"); }
+                if inst.query.is_some() { stats.bump("s.c10.shared.lookup-1-not-ended"); }
+                if !done2 { stats.bump("s.c10.shared.lookup-2-not-ended"); }
+                if let (Some(sh), true, true, true) = (inst.shared, inst.shared_seen[0] && inst.shared_seen[1], inst.query.is_none(), done2) {
+                    stats.bump("s.c10.two-lookups-learned-of-one-stranger-and-ended");
+                    let asked = inst.reqs.iter().filter(|r| r.is_query && r.contact.node_id().raw() == sh && matches!(r.body, RequestBody::FindNode { .. })).count();
+                    if asked < 2 {
+                        out.push(format!("!MON C10 of-two-lookups-that-learned-of-a-node-only-{}-asked-it id={}", asked, id8(&sh)));
+                    }
+                }
+                out.push("!OP snop".into());
                 out.push("ok".into());
             }
             // the life of the process-wide permit / ban lists around the start of a node: entries made through
@@ -2362,7 +2469,12 @@ impl Runner for ServiceRunner {
                 let id = self.insts[&x].reqs[k - 1].id.clone();
                 let is_q = self.insts[&x].reqs[k - 1].is_query;
                 let _ = self.insts[&x].hout.try_send(HandlerOut::RequestFailed(id, RequestError::Timeout));
+                {
+                    let inst = self.insts.get_mut(&x).unwrap();
+                    inst.cur_lookup = if inst.concurrent { inst.reqs[k - 1].lookup } else { 0 };
+                }
                 let mut so = self.observe(x, is_q, false);
+                self.insts.get_mut(&x).unwrap().cur_lookup = 0;
                 {
                     let inst = self.insts.get_mut(&x).unwrap();
                     let cur = inst.query_epoch;
@@ -2411,8 +2523,10 @@ impl Runner for ServiceRunner {
                     let inst = self.insts.get_mut(&x).unwrap();
                     inst.query2 = Some(h);
                     inst.concurrent = true;
+                    inst.cur_lookup = 2;
                 }
                 let so = self.observe(x, true, false);
+                self.insts.get_mut(&x).unwrap().cur_lookup = 0;
                 stats.bump("s.second-lookup-started");
                 out.push(format!("!OP squery2 {}", x));
                 self.finish(x, "squery2", None, so, None, out, stats);
@@ -2459,7 +2573,9 @@ impl Runner for ServiceRunner {
                 }
                 self.insts.get_mut(&x).unwrap().query = Some(h);
                 self.insts.get_mut(&x).unwrap().query_k = k;
+                self.insts.get_mut(&x).unwrap().cur_lookup = 1;
                 let mut so = self.observe(x, true, false);
+                self.insts.get_mut(&x).unwrap().cur_lookup = 0;
                 stats.bump("s.queries");
                 for k in &so.new_reqs {
                     if let RequestBody::FindNode { distances } = &self.insts[&x].reqs[*k - 1].body {
@@ -3574,6 +3690,36 @@ pub fn gen_case(rng: &mut Rng, tier: &str, profile: &str, stats: &mut Stats) -> 
     }
     if profile == "C16" {
         gen_c16(rng, &mut ops, stats);
+        return ops;
+    }
+    if profile == "C10shared" {
+        // two lookups at once over a table of 6-8 nodes; one answer to each names the same stranger; the
+        // first lookup is brought to its end (everything it asks fails), then the second: both end short,
+        // so both must have asked the stranger
+        stats.bump("gen.c10.two-lookups-one-stranger");
+        ops.push(format!("snew A k{} 1 4 0 ip4 all 16 16 0", rng.range(1, 40)));
+        for i in 0..rng.range(6, 8) {
+            ops.push(format!("sest A k{}:1:4:0 = {}", 300 + i * 7 + rng.below(5), if rng.chance(1, 2) { "o" } else { "i" }));
+        }
+        ops.push(format!("squery A {}", hex::encode(rng.bytes(32))));
+        ops.push(format!("squery2 A {}", hex::encode(rng.bytes(32))));
+        let base = rng.below(1000);
+        // (mostly the lookup that was told first also ends first)
+        let (told_first, told_second) = if rng.chance(1, 2) { ("#q1", "#q2") } else { ("#q2", "#q1") };
+        ops.push(format!("sresp A {} ok nodes 1 @shared:{}", told_first, base));
+        let _ = told_second;
+        ops.push(format!("sresp A #qs ok nodes 1 @shared:{}", base));
+        let (first, second) = if rng.chance(4, 5) { (told_first, told_second) } else { (told_second, told_first) };
+        for _ in 0..14 {
+            ops.push(format!("sfail A {}", first));
+        }
+        for _ in 0..14 {
+            ops.push(format!("sfail A {}", second));
+        }
+        for _ in 0..6 {
+            ops.push("sfail A #q".into());
+        }
+        ops.push("sshared A".into());
         return ops;
     }
     if profile == "C18boot" {
